@@ -156,6 +156,14 @@ thread_local! {
     static CUR_ITEM: Cell<i64> = const { Cell::new(-1) };
     static CUR_W: RefCell<(String, bool)> = const { RefCell::new((String::new(), false)) };
     static CUR_EW: RefCell<Option<String>> = const { RefCell::new(None) };
+    // the timeout of the blocking call in progress on this thread and the last budget one of its
+    // waits was given
+    static CUR_CALL: RefCell<(Option<Duration>, Option<Duration>)> = const { RefCell::new((None, None)) };
+}
+
+/// A blocking call with this timeout is about to start on the calling thread (None: it ended).
+pub fn set_current_call_timeout(t: Option<Duration>) {
+    CUR_CALL.with(|c| *c.borrow_mut() = (t, None));
 }
 
 /// The id of the raw `when_empty` callback the calling thread is about to register (None: the
@@ -192,7 +200,7 @@ impl Recorder {
     /// Translate a hook event.
     pub fn hook(&self, e: &Event) {
         let want = self.chan.load(std::sync::atomic::Ordering::SeqCst);
-        if want != 0 && e.chan != want {
+        if want != 0 && e.chan != 0 && e.chan != want {
             return;
         }
         let v = match e.kind {
@@ -206,6 +214,26 @@ impl Recorder {
                 Some(w) => json!({"ev": "EmptyReq", "w": w}),
                 None => return,
             },
+            "trigger_wait" => {
+                // the budget of this wait relative to the call's timeout (first wait) or to the
+                // previous wait of the same call: time only moves forwards
+                let budget = Duration::new(e.a as u64, e.b as u32);
+                let r = CUR_CALL.with(|c| {
+                    let mut c = c.borrow_mut();
+                    let (call, last) = *c;
+                    let call = call?;
+                    let (first, reference) = match last {
+                        None => (true, call),
+                        Some(l) => (false, l),
+                    };
+                    c.1 = Some(budget);
+                    Some((first, if budget < reference { "lt" } else if budget == reference { "eq" } else { "gt" }))
+                });
+                match r {
+                    Some((first, rel)) => json!({"ev": "WaitBudget", "first": first, "rel": rel}),
+                    None => return,
+                }
+            }
             "take" => json!({"ev": "Take", "n": e.snapshot.unwrap().pending}),
             "take_empty" => json!({"ev": "TakeEmpty"}),
             "drop_sender_begin" => json!({"ev": "Closing", "by": "sender"}),
